@@ -231,6 +231,8 @@ EDITS = {
         ("rn09", "crates/lib/mimium-lang/src/ast/program.rs", "        if exists(&relative_mangled) {\n            return (relative_mangled, relative_path);", "        if exists(&relative_mangled) {\n            return (relative_mangled, path_segments.to_vec());", "verus", "resolve_names"),
         ("cn01", "crates/lib/mimium-lang/src/compiler/mirgen/convert_qualified_names.rs", "        Pattern::Single(name) => {\n            names.insert(*name);\n        }", "        Pattern::Single(name) => {\n            let _ = name;\n        }", "verus", "resolve_walk"),
         ("cn02", "crates/lib/mimium-lang/src/compiler/mirgen/convert_qualified_names.rs", "            for (_, p) in fields {\n                collect_names_from_pattern(p, names);", "            for (_, p) in fields {\n                let _ = p;", "verus", "resolve_walk"),
+        ("mp01", "crates/lib/mimium-lang/src/compiler/mirgen/convert_qualified_names.rs", "                .for_each(|inner_pat| bind_match_pattern_locals(ctx, inner_pat));", "                .for_each(|inner_pat| { ctx.push_scope(); bind_match_pattern_locals(ctx, inner_pat) });", "verus", "resolve_walk"),
+        ("mp02", "crates/lib/mimium-lang/src/compiler/mirgen/convert_qualified_names.rs", "        MatchPattern::Variable(id) => {\n            ctx.bind_local(*id);\n        }", "        MatchPattern::Variable(id) => {\n            ctx.push_scope();\n            ctx.bind_local(*id);\n        }", "verus", "resolve_walk"),
         ("ss01", "crates/lib/mimium-lang/src/compiler/mirgen/convert_qualified_names.rs", "        let _ = self.local_bindings.pop();", "        let _ = self.local_bindings.pop();\n        let _ = self.local_bindings.pop();", "verus", "resolve_walk"),
         ("ss02", "crates/lib/mimium-lang/src/compiler/mirgen/convert_qualified_names.rs", "        if let Some(scope) = self.local_bindings.last_mut() {\n            scope.insert(symbol);", "        if let Some(scope) = self.local_bindings.first_mut() {\n            scope.insert(symbol);", "verus", "resolve_walk"),
         ("ss03", "crates/lib/mimium-lang/src/compiler/mirgen/convert_qualified_names.rs", "        self.local_bindings.push(HashSet::new());", "        if self.local_bindings.is_empty() { self.local_bindings.push(HashSet::new()); }", "verus", "resolve_walk"),
